@@ -7,13 +7,21 @@
    DCMesher::load with the patch tables libfive builds at start-up (Gen/MarchTables_gen.v,
    dumped from the implementation on every run) is watertight and consistently oriented for
    every filled / empty assignment of the lattice points and every choice of quad diagonals.
+   The simplex mesher on a UNIFORM grid (Render/SimplexGrid.v, SimplexGridSem.v): the complex of
+   tetrahedra Dual<3>::walk + SimplexMesher::load<A> builds (16 tets per lattice edge, through
+   cell_vertices / tet_vertices re-read from simplex_mesher.cpp on every run) is closed and
+   consistently oriented, so the hypothesis [complex_closed] of the marching-tetrahedra theorems
+   is DISCHARGED for uniform grids: the mesh is watertight, consistently oriented and
+   edge-manifold for every inside / outside assignment of the subspace vertices that is outside
+   on the outermost layer of cells of the box.
    Oracle-only part (check/props/c03.py): grids with cells of different octree levels (the
-   minimal-edge rule, collapsed cells), and the fact that libfive's own complex of tetrahedra
-   is closed and consistently oriented, which is the hypothesis [complex_closed]. *)
+   minimal-edge rule, collapsed cells; for the simplex mesher: min_element / leafLevel selection,
+   next_shared / prev_shared), where [complex_closed] remains a hypothesis. *)
 From Coq Require Import List Arith.
 From Coq Require Import ZArith.
 From LF Require Import Gen.TetTable_gen Render.MarchTet Render.MarchTetSem.
 From LF Require Gen.MarchTables_gen Render.DCGrid Render.DCGridSem.
+From LF Require Render.SimplexGrid Render.SimplexGridSem.
 Import ListNotations.
 
 (* the table itself: 16 rows, 0 / 1 / 2 triangles by the number of inside vertices, every
@@ -76,6 +84,81 @@ Theorem C03_dc_vertices_valid : forall ins d A p t,
   let '(a, b, c) := t in (0 <= snd a)%Z /\ (0 <= snd b)%Z /\ (0 <= snd c)%Z.
 Proof. exact DCGridSem.quad_vertices_valid. Qed.
 
+(* SIMPLEX MESHER, uniform grid.  Subspace vertices are points of the doubled lattice
+   (2 c + 0 | 2 | 1 per axis for digit low | high | spanning), numbered by SimplexGrid.enc n on the
+   box of n^3 cells; SimplexGrid.all_edges n lists every lattice edge whose four cells lie in the
+   box; SimplexGridSem.clear_boundary n ins: every subspace vertex with a doubled coordinate in
+   {0, 1, 2n - 1, 2n} (the outermost layer of cells) is outside. *)
+
+(* every tet of load<A> is a flag corner < edge < face < cell of the cubical grid, in the vertex
+   order (edge, corner | face, face | corner, cell), with four distinct vertices *)
+Theorem C03_simplex_tets_are_flags : forall A p t,
+  DCGrid.is_axis A = true -> In t (SimplexGrid.simplex_gtets A p) ->
+  SimplexGridSem.tet_flagb t = true /\ SimplexGridSem.gdistinctb t = true.
+Proof. exact SimplexGridSem.simplex_gtets_flags. Qed.
+
+(* THE HYPOTHESIS OF C03_marching_tets_closed, DISCHARGED: libfive's own complex is closed and
+   consistently oriented (every face that carries surface occurs exactly once with each
+   orientation) *)
+Theorem C03_simplex_uniform_grid_complex_closed : forall n ins,
+  SimplexGridSem.clear_boundary n ins ->
+  complex_closed ins (SimplexGrid.simplex_complex n (SimplexGrid.all_edges n)).
+Proof. exact SimplexGridSem.simplex_complex_closed. Qed.
+
+(* the same for any duplicate-free list of lattice edges of the box that contains, for every face
+   carrying surface, the lattice edge of the tet on the other side *)
+Theorem C03_simplex_complex_closed_any_edges : forall n ins E,
+  NoDup E -> SimplexGridSem.axes_ok E -> SimplexGridSem.edges_in_box n E ->
+  SimplexGridSem.partner_closed n ins E ->
+  complex_closed ins (SimplexGrid.simplex_complex n E).
+Proof. exact SimplexGridSem.simplex_complex_closed_gen. Qed.
+
+(* WATERTIGHT AND CONSISTENTLY ORIENTED, no hypothesis on the complex left *)
+Theorem C03_simplex_uniform_grid_closed : forall n ins,
+  SimplexGridSem.clear_boundary n ins ->
+  closed_mesh (mesh ins (SimplexGrid.simplex_complex n (SimplexGrid.all_edges n))).
+Proof. exact SimplexGridSem.simplex_grid_closed. Qed.
+
+(* EDGE-MANIFOLD: distinct flags have distinct vertex sets *)
+Theorem C03_simplex_uniform_grid_simplicial : forall n,
+  simplicial (SimplexGrid.simplex_complex n (SimplexGrid.all_edges n)).
+Proof. exact SimplexGridSem.simplex_complex_simplicial. Qed.
+
+Theorem C03_simplex_uniform_grid_manifold : forall n ins,
+  SimplexGridSem.clear_boundary n ins ->
+  manifold_mesh (mesh ins (SimplexGrid.simplex_complex n (SimplexGrid.all_edges n))).
+Proof. exact SimplexGridSem.simplex_grid_manifold. Qed.
+
+(* the model emits for every cell; what load<A> skips (EMPTY / FILLED cells: all subspace vertices
+   of one sign) emits nothing *)
+Theorem C03_simplex_skipped_emit_nothing : forall ins t,
+  ins (tet_nth t 1) = ins (tet_nth t 0) -> ins (tet_nth t 2) = ins (tet_nth t 0) ->
+  ins (tet_nth t 3) = ins (tet_nth t 0) -> march ins t = [].
+Proof. exact SimplexGridSem.skipped_tets_emit_nothing. Qed.
+
+(* non-vacuity: one inside corner in the 2^3 box, one inside cell vertex in the 3^3 box *)
+Theorem C03_simplex_grid_example :
+  SimplexGridSem.clear_boundary 2 SimplexGridSem.ex_corner /\
+  length (SimplexGrid.simplex_mesh 2 SimplexGridSem.ex_corner) = 48 /\
+  closed_mesh (SimplexGrid.simplex_mesh 2 SimplexGridSem.ex_corner) /\
+  manifold_mesh (SimplexGrid.simplex_mesh 2 SimplexGridSem.ex_corner) /\
+  SimplexGridSem.clear_boundary 3 SimplexGridSem.ex_cell /\
+  length (SimplexGrid.simplex_mesh 3 SimplexGridSem.ex_cell) = 48 /\
+  closed_mesh (SimplexGrid.simplex_mesh 3 SimplexGridSem.ex_cell) /\
+  manifold_mesh (SimplexGrid.simplex_mesh 3 SimplexGridSem.ex_cell).
+Proof.
+  split; [exact SimplexGridSem.ex_corner_clear|]. split; [exact SimplexGridSem.ex_corner_size|].
+  split; [exact SimplexGridSem.ex_corner_closed|]. split; [exact SimplexGridSem.ex_corner_manifold|].
+  split; [exact SimplexGridSem.ex_cell_clear|]. split; [exact SimplexGridSem.ex_cell_size|].
+  split; [exact SimplexGridSem.ex_cell_closed|exact SimplexGridSem.ex_cell_manifold].
+Qed.
+
+(* and a boundary hypothesis is needed: [all_edges] has no lattice edges in the boundary of the
+   box, so an inside corner on the boundary leaves the surface open *)
+Theorem C03_simplex_boundary_needed :
+  ~ closed_mesh (SimplexGrid.simplex_mesh 2 (SimplexGridSem.ins_of 2 [(0, 2, 2)%Z])).
+Proof. exact SimplexGridSem.boundary_needed. Qed.
+
 Print Assumptions C03_table_sanity.
 Print Assumptions C03_tet_boundary.
 Print Assumptions C03_marching_tets_closed.
@@ -85,3 +168,12 @@ Print Assumptions C03_double_tet_not_manifold.
 Print Assumptions C03_dc_uniform_grid_closed.
 Print Assumptions C03_dc_every_finite_solid_closed.
 Print Assumptions C03_dc_vertices_valid.
+Print Assumptions C03_simplex_tets_are_flags.
+Print Assumptions C03_simplex_uniform_grid_complex_closed.
+Print Assumptions C03_simplex_complex_closed_any_edges.
+Print Assumptions C03_simplex_uniform_grid_closed.
+Print Assumptions C03_simplex_uniform_grid_simplicial.
+Print Assumptions C03_simplex_uniform_grid_manifold.
+Print Assumptions C03_simplex_skipped_emit_nothing.
+Print Assumptions C03_simplex_grid_example.
+Print Assumptions C03_simplex_boundary_needed.
